@@ -131,7 +131,7 @@ def lookup (t : Tbl P) (pred : Nat → Nat → Bool) (first : Nat) (q : List Nat
   | .ok (some th) =>
     match collect t first th [] with
     | .ok none => .ok []
-    | .ok (some r) => .ok r
+    | .ok (some r) => .ok (r.take first)      -- `result.truncate(first)` (repair of F11)
     | .panic s => .panic s
     | .outOfFuel => .outOfFuel
   | .panic s => .panic s
